@@ -533,4 +533,37 @@ def Schema.extendsCore (S : Schema) : Bool :=
     | _, _ => false) &&
   (List.range coreSchema.ifaces.size).all (fun i => S.ifaces[i]? == coreSchema.ifaces[i]?)
 
+/-! ### digest of a schema (ties the data file loaded by the driver to the Lean term whose
+well-formedness the kernel checks: both must have the digest the translator computed) -/
+
+def mix (h x : Nat) : Nat := (h * 1000003 + x + 1) % 2305843009213693951
+
+def Ty.digest : Ty → Nat
+  | .int => 1
+  | .long => 2
+  | .double => 3
+  | .int128 => 4
+  | .int256 => 5
+  | .str => 6
+  | .bool => 7
+  | .trueFlag => 8
+  | .flags => 9
+  | .generic => 10
+  | .boxed i => mix 11 i
+  | .ctor c false => mix 12 c
+  | .ctor c true => mix 13 c
+  | .vec false t => mix 14 t.digest
+  | .vec true t => mix 15 t.digest
+
+def Field.digest (f : Field) : Nat :=
+  mix f.ty.digest (match f.cond with | none => 0 | some (k, b) => 1 + k * 64 + b)
+
+def Ctor.digest (c : Ctor) : Nat :=
+  c.fields.foldl (fun h f => mix h f.digest)
+    (mix (match c.id with | none => 0 | some i => i + 1) (if c.bad then 1 else 0))
+
+def Schema.digest (S : Schema) : Nat :=
+  S.ifaces.toList.foldl (fun h l => l.foldl mix (mix h 77))
+    (S.ctors.toList.foldl (fun h c => mix h c.digest) 0)
+
 end TdModel.C21
